@@ -22,12 +22,12 @@
    on the map Len handed back.  [grun_obs] records after every operation (Len, Count, p, number of
    words drawn), the record of the model's [run_obs].
 
-   What is NOT proved: that the order [dorder] builds from a [Some sv] oracle ([D.arrange]) always
-   enumerates the buffer.  The generated code checks the order it is handed
-   ([go_nmap_order_check]); if the check rejects it the machine stops with [Panic PBadOrder].  Hence
-   the one-step and history theorems are disjunctions: equality with the model, or the machine
-   stopped with PBadOrder at an Add whose oracle is not None.  For histories without oracles (every
-   range in list order) the equality is unconditional ([history_source_plain]). *)
+   The order.  [dorder_valid]: the order [dorder] decodes ANY oracle to (list order for None; for
+   [Some sv] the arrangement [D.arrange] of the buffer that puts the survivors sv at the keeping bits
+   of the words about to be consumed) is an enumeration of the buffer, so the order check of the
+   generated code ([go_nmap_order_check]) accepts it; an oracle [dorder] rejects (BadOracle) is the
+   order [] on a non-empty buffer, which the generated check rejects with PBadOrder.  Hence the
+   one-step and history theorems are equalities for every oracle, failures included. *)
 From Coq Require Import ZArith List Bool Lia.
 From Mds Require Import Common.FnRt GenTie.TieLib Gen.FnDistinct Gen.DistinctConst
   GenTie.MapsetTieBase GenTie.DistinctTie GenTie.DistinctTieNew.
@@ -117,9 +117,6 @@ Definition emb (cap : Z) (r : D.rres T) : res gst :=
 
 Definition words_ok (ws : list Z) : Prop := Forall (fun w => 0 <= w < D.two64) ws.
 
-Definition oracle_of (o : D.op T) : option (list T) :=
-  match o with D.OAdd _ sv => sv | D.OReset => None end.
-
 (* ------------------------------------------------------------------ the bridge D.D <-> SM *)
 Definition sof {A : Type} (r : D.dres T A) : res (A * list Z) :=
   match r with
@@ -203,6 +200,136 @@ Proof.
   - destruct b; discriminate.
 Qed.
 
+(* ---- the order [dorder] decodes an oracle to is an enumeration of the buffer ---- *)
+Lemma order_ok_intro b l : NoDup b -> length l = length b -> NoDup l -> incl l b ->
+  go_nmap_order_ok eqb (rep b) l = true.
+Proof.
+  intros Nb L Nl I. unfold go_nmap_order_ok, rep, go_nmap_len. cbn [go_nmap_entries].
+  rewrite (len_ents eqb eqb_spec b Nb). unfold zlen. rewrite L, Z.eqb_refl.
+  rewrite (@MapsetSource.keys_nodup T eqb eqb_spec l Nl). cbn [andb].
+  apply forallb_forall. intros x Hx. apply (has_rep eqb eqb_spec). apply I. exact Hx.
+Qed.
+
+Lemma filter_compl_length (f : T -> bool) l :
+  (length (filter f l) + length (filter (fun x => negb (f x)) l) = length l)%nat.
+Proof. induction l as [|a l IH]; [reflexivity|]. cbn [filter]. destruct (f a); cbn [negb length]; lia. Qed.
+
+Lemma filter_compl_length_bool (ds : list bool) :
+  (length (filter negb ds) + length (filter (fun d => d) ds) = length ds)%nat.
+Proof. induction ds as [|d r IH]; [reflexivity|]. destruct d; cbn [filter negb length]; lia. Qed.
+
+Lemma firstn_In (x : T) : forall n l, In x (firstn n l) -> In x l.
+Proof.
+  induction n as [|n IH]; intros l H; [contradiction|]. destruct l as [|a l]; [contradiction|].
+  cbn [firstn] in H. destruct H as [H|H]; [left; exact H | right; apply IH; exact H].
+Qed.
+
+Lemma dmemb_In x l : D.memb T eqb x l = true <-> In x l.
+Proof. apply (DP.memb_In T eqb eqb_reflect). Qed.
+
+(* the elements of b outside a duplicate-free sublist k: |b| - |k| of them *)
+Lemma outside_length k b : NoDup k -> NoDup b -> incl k b ->
+  length (filter (fun x => negb (D.memb T eqb x k)) b) = (length b - length k)%nat.
+Proof.
+  intros Nk Nb I. pose proof (filter_compl_length (fun x => D.memb T eqb x k) b) as H.
+  assert (E : length (filter (fun x => D.memb T eqb x k) b) = length k).
+  { apply Nat.le_antisymm.
+    - apply NoDup_incl_length; [apply NoDup_filter; exact Nb|].
+      intros x Hx. apply filter_In in Hx. apply dmemb_In. apply Hx.
+    - apply NoDup_incl_length; [exact Nk|].
+      intros x Hx. apply filter_In. split; [apply I; exact Hx | apply dmemb_In; exact Hx]. }
+  cbv beta in H. lia.
+Qed.
+
+Lemma nodupb_NoDup l : D.nodupb T eqb l = true -> NoDup l.
+Proof.
+  induction l as [|a l IH]; cbn [D.nodupb]; intros H; [constructor|].
+  apply andb_true_iff in H. destruct H as [H1 H2]. constructor; [|apply IH; exact H2].
+  intros I. apply dmemb_In in I. rewrite I in H1. discriminate.
+Qed.
+
+Lemma NoDup_app_disj (l1 l2 : list T) : NoDup l1 -> NoDup l2 -> (forall x, In x l1 -> ~ In x l2) -> NoDup (l1 ++ l2).
+Proof.
+  intros N1 N2 Dj. induction N1 as [|a l1 Na N1 IH]; [exact N2|]. cbn [app]. constructor.
+  - intros I. apply in_app_or in I. destruct I as [I|I]; [contradiction|]. exact (Dj a (or_introl eq_refl) I).
+  - apply IH. intros x Hx. apply Dj. right. exact Hx.
+Qed.
+
+Lemma arrange_In : forall drops keep gone x, In x (D.arrange T drops keep gone) -> In x keep \/ In x gone.
+Proof.
+  induction drops as [|d r IH]; intros keep gone x H; [contradiction|]. cbn [D.arrange] in H. destruct d.
+  - destruct gone as [|g gs]; [contradiction|]. destruct H as [H|H]; [right; left; exact H|].
+    destruct (IH _ _ _ H) as [H'|H']; [left; exact H' | right; right; exact H'].
+  - destruct keep as [|k ks]; [contradiction|]. destruct H as [H|H]; [left; left; exact H|].
+    destruct (IH _ _ _ H) as [H'|H']; [left; right; exact H' | right; exact H'].
+Qed.
+
+Lemma arrange_NoDup : forall drops keep gone, NoDup keep -> NoDup gone -> (forall x, In x keep -> ~ In x gone) ->
+  NoDup (D.arrange T drops keep gone).
+Proof.
+  induction drops as [|d r IH]; intros keep gone Nk Ng Dj; [constructor|]. cbn [D.arrange]. destruct d.
+  - destruct gone as [|g gs]; [constructor|]. inversion Ng as [|? ? Ng1 Ng2]; subst. constructor.
+    + intros I. apply arrange_In in I. destruct I as [I|I]; [exact (Dj g I (or_introl eq_refl)) | contradiction].
+    + apply IH; [exact Nk | exact Ng2 | intros x Hx Hg; exact (Dj x Hx (or_intror Hg))].
+  - destruct keep as [|k ks]; [constructor|]. inversion Nk as [|? ? Nk1 Nk2]; subst. constructor.
+    + intros I. apply arrange_In in I. destruct I as [I|I]; [contradiction | exact (Dj k (or_introl eq_refl) I)].
+    + apply IH; [exact Nk2 | exact Ng | intros x Hx; apply Dj; right; exact Hx].
+Qed.
+
+Lemma arrange_length : forall drops keep gone,
+  (length (filter negb drops) <= length keep)%nat -> (length (filter (fun d => d) drops) <= length gone)%nat ->
+  length (D.arrange T drops keep gone) = length drops.
+Proof.
+  induction drops as [|d r IH]; intros keep gone Hk Hg; [reflexivity|]. cbn [D.arrange]. destruct d; cbn [filter negb length] in Hk, Hg.
+  - destruct gone as [|g gs]; [cbn in Hg; lia|]. cbn [length] in *. rewrite IH; [reflexivity | exact Hk | lia].
+  - destruct keep as [|k ks]; [cbn in Hk; lia|]. cbn [length] in *. rewrite IH; [reflexivity | lia | exact Hg].
+Qed.
+
+Lemma dorder_valid b t l : NoDup b -> D.dorder T eqb b t = D.DOk l t ->
+  go_nmap_order_ok eqb (rep b) l = true.
+Proof.
+  intros Nb. unfold D.dorder. destruct (D.orc T t) as [sv|].
+  2:{ intros E. inversion E; subst. apply order_ok_intro; [exact Nb | reflexivity | exact Nb | apply incl_refl]. }
+  set (drops := D.peek_drops (length b) (D.words T t) 0 0).
+  destruct (Nat.eqb (length drops) (length b)) eqn:EL; cbn [negb].
+  2:{ intros E. inversion E; subst. apply order_ok_intro; [exact Nb | reflexivity | exact Nb | apply incl_refl]. }
+  apply Nat.eqb_eq in EL.
+  set (ones := length (filter negb drops)).
+  destruct (forallb (fun x => D.memb T eqb x b) sv && D.nodupb T eqb sv && Nat.leb (length sv) ones) eqn:C; [|discriminate].
+  apply andb_true_iff in C. destruct C as [C C3]. apply andb_true_iff in C. destruct C as [C1 C2].
+  apply Nat.leb_le in C3. apply nodupb_NoDup in C2.
+  assert (Isv : incl sv b). { intros x Hx. rewrite forallb_forall in C1. apply dmemb_In. apply C1. exact Hx. }
+  set (rest := filter (fun x => negb (D.memb T eqb x sv)) b).
+  set (keep := sv ++ firstn (ones - length sv) rest).
+  set (gone := filter (fun x => negb (D.memb T eqb x keep)) b).
+  intros E. inversion E; subst l. clear E.
+  assert (Lrest : length rest = (length b - length sv)%nat) by (apply outside_length; assumption).
+  assert (Lones : (ones <= length b)%nat).
+  { unfold ones. rewrite <- EL. pose proof (filter_compl_length_bool drops). lia. }
+  assert (Nrest : NoDup rest) by (apply NoDup_filter; exact Nb).
+  assert (Nkeep : NoDup keep).
+  { apply NoDup_app_disj; [exact C2 | |].
+    - clear -Nrest. revert Nrest. generalize (ones - length sv)%nat. induction rest as [|a l IH]; intros n N; [rewrite firstn_nil; constructor|].
+      destruct n; [constructor|]. cbn [firstn]. inversion N; subst. constructor; [|apply IH; assumption].
+      intros I. apply firstn_In in I. contradiction.
+    - intros x Hx I. apply firstn_In in I. apply filter_In in I. destruct I as [_ I].
+      apply dmemb_In in Hx. rewrite Hx in I. discriminate. }
+  assert (Ikeep : incl keep b).
+  { intros x Hx. apply in_app_or in Hx. destruct Hx as [Hx|Hx]; [apply Isv; exact Hx|].
+    apply firstn_In in Hx. apply filter_In in Hx. apply Hx. }
+  assert (Lkeep : length keep = ones).
+  { unfold keep. rewrite app_length, firstn_length_le by lia. lia. }
+  assert (Lgone : length gone = (length b - ones)%nat).
+  { unfold gone. rewrite outside_length by assumption. lia. }
+  assert (Ltrue : length (filter (fun d => d) drops) = (length b - ones)%nat).
+  { pose proof (filter_compl_length_bool drops). unfold ones. lia. }
+  apply order_ok_intro; [exact Nb | | |].
+  - rewrite arrange_length; [exact EL | fold ones; lia | lia].
+  - apply arrange_NoDup; [exact Nkeep | apply NoDup_filter; exact Nb |].
+    intros x Hx I. apply filter_In in I. destruct I as [_ I]. apply dmemb_In in Hx. rewrite Hx in I. discriminate.
+  - intros x Hx. apply arrange_In in Hx. destruct Hx as [Hx|Hx]; [apply Ikeep; exact Hx|].
+    apply filter_In in Hx. apply Hx.
+Qed.
 (* what follows the coin in Add (pinned variant), generic in the monad: [D.add] = coin >>= kont *)
 Definition kont (M : Type -> Type) (ret : forall A, A -> M A) (bnd : forall A B, M A -> (A -> M B) -> M B)
   (word : M Z) (order : list T -> M (list T)) (cap : Z) (s : D.st T) (v : T) (failed : bool) : M (D.outcome T) :=
@@ -228,14 +355,14 @@ Lemma kont_bridge cap s v failed ws o :
   let ks := kont SM sret sbind sword (sorder eqb ord) cap s v failed ws in
   let kd := kont (D.D T) (D.dret T) (D.dbind T) (D.dword T) (D.dorder T eqb) cap s v failed (D.mktape T ws o) in
   (forall out t', kd = D.DOk out t' -> words_ok (D.words T t'))
-  /\ (ks = sof kd \/ (o <> None /\ ks = Panic PBadOrder)).
+  /\ ks = sof kd.
 Proof.
   intros N W. cbv zeta. unfold kont. destruct failed.
-  - split; [|left; reflexivity]. intros out t' E. unfold D.dret in E. inversion E; subst. exact W.
+  - split; [|reflexivity]. intros out t' E. unfold D.dret in E. inversion E; subst. exact W.
   - cbv zeta. set (b := D.insert T eqb v (D.buf s)).
     assert (Nb : NoDup b) by (apply (DP.NoDup_insert T eqb eqb_reflect); exact N).
     destruct (full_cond (Z.of_nat (length b)) cap).
-    2:{ split; [|left; reflexivity]. intros out t' E. unfold D.dret in E. inversion E; subst. exact W. }
+    2:{ split; [|reflexivity]. intros out t' E. unfold D.dret in E. inversion E; subst. exact W. }
     unfold ord_of, D.halve1.
     destruct (dorder_cases b (D.mktape T ws o)) as [[l El]|Ee].
     + rewrite El.
@@ -249,17 +376,13 @@ Proof.
       * intros out t' E. rewrite dbind_eq in E.
         destruct (dpass l b 0 0 (D.mktape T ws o)) as [b1 t1|e1] eqn:Ep; [|discriminate].
         unfold D.dret in E. inversion E; subst. exact (P2 _ _ eq_refl).
-      * destruct (go_nmap_order_ok eqb (rep b) l) eqn:O.
-        -- left. rewrite !sbind_eq. unfold sorder. rewrite O. cbn [bind]. rewrite P1.
-           rewrite dbind_eq. destruct (dpass l b 0 0 (D.mktape T ws o)) as [b1 t1|e1]; [reflexivity|].
-           destruct e1; reflexivity.
-        -- right. split.
-           ++ intros ->. unfold D.dorder in El. cbn [D.orc] in El. inversion El; subst l.
-              rewrite (order_self b Nb) in O. discriminate.
-           ++ rewrite !sbind_eq. unfold sorder. rewrite O. reflexivity.
+      * pose proof (dorder_valid b _ l Nb El) as O.
+        rewrite !sbind_eq. unfold sorder. rewrite O. cbn [bind]. rewrite P1.
+        rewrite dbind_eq. destruct (dpass l b 0 0 (D.mktape T ws o)) as [b1 t1|e1]; [reflexivity|].
+        destruct e1; reflexivity.
     + rewrite Ee. split.
       * intros out t' E. rewrite !dbind_eq in E. rewrite Ee in E. discriminate.
-      * left. rewrite !sbind_eq. unfold sorder.
+      * rewrite !sbind_eq. unfold sorder.
         rewrite (order_nil_bad b Nb (insert_nonempty v (D.buf s))). cbn [bind].
         rewrite !dbind_eq. rewrite Ee. reflexivity.
 Qed.
@@ -268,15 +391,14 @@ Lemma madd_bridge cap fuel mfuel s v ws o :
   NoDup (D.buf s) -> words_ok ws ->
   let ord := gord (enc cap s ws) v o in
   (forall out t', D.dadd T eqb true fuel cap s v (D.mktape T ws o) = D.DOk out t' -> words_ok (D.words T t'))
-  /\ (madd eqb ord true mfuel cap s v ws = sof (D.dadd T eqb true fuel cap s v (D.mktape T ws o))
-      \/ (o <> None /\ madd eqb ord true mfuel cap s v ws = Panic PBadOrder)).
+  /\ madd eqb ord true mfuel cap s v ws = sof (D.dadd T eqb true fuel cap s v (D.mktape T ws o)).
 Proof.
   intros N W. cbv zeta. unfold gord, words_after_coin, enc.
   cbn [DN.Counter_buf DN.Counter_p DN.Counter_rng]. rewrite keys_rep.
   unfold madd, D.dadd. rewrite !add_kont. unfold scoin, D.dcoin, D.real_coin.
   destruct (D.p s <? D.maxu) eqn:P.
   - destruct ws as [|w r].
-    + split; [intros; discriminate | left; reflexivity].
+    + split; [intros; discriminate | reflexivity].
     + assert (Wr : words_ok r) by (inversion W; assumption).
       assert (Es : forall (g : bool -> SM (D.outcome T)),
                  sbind bool (D.outcome T) (sbind Z bool sword (fun w0 => sret bool (coin_fail (D.p s) D.maxu w0))) g (w :: r)
@@ -317,11 +439,10 @@ Qed.
 Theorem step_is_source cap fuel s ws o :
   DP.Inv T s -> words_ok ws ->
   (forall s' ws', D.step T eqb single fuel cap s ws o = D.ROk s' ws' -> words_ok ws')
-  /\ (gstep (enc cap s ws) o = emb cap (D.step T eqb single fuel cap s ws o)
-      \/ (oracle_of o <> None /\ gstep (enc cap s ws) o = Panic PBadOrder)).
+  /\ gstep (enc cap s ws) o = emb cap (D.step T eqb single fuel cap s ws o).
 Proof.
   intros I W. change single with true. destruct o as [v o|].
-  - destruct I as [N _]. cbn [oracle_of D.step].
+  - destruct I as [N _]. cbn [D.step].
     destruct (madd_bridge cap fuel 0%nat s v ws o N W) as [B1 B2]. cbv zeta in B1, B2. split.
     + intros s' ws' E.
       destruct (D.dadd T eqb true fuel cap s v (D.mktape T ws o)) as [[s1|s1] t1|e1] eqn:Ed; try discriminate.
@@ -337,15 +458,12 @@ Proof.
         change (DN.Counter_rng (enc cap s ws)) with ws.
         rewrite (C19_add_is_source eqb eqb_spec mf mf_ok s cap v ws ord (S (length ord)) 0%nat N (Nat.lt_succ_diag_r _)).
         reflexivity. }
-      rewrite G. clear G.
-      destruct B2 as [B2|[B2 B3]].
-      * left. rewrite B2.
-        destruct (D.dadd T eqb true fuel cap s v (D.mktape T ws o)) as [[s1|s1] t1|e1]; [reflexivity|reflexivity|].
-        destruct e1; reflexivity.
-      * right. split; [exact B2|]. rewrite B3. reflexivity.
+      rewrite G. clear G. rewrite B2.
+      destruct (D.dadd T eqb true fuel cap s v (D.mktape T ws o)) as [[s1|s1] t1|e1]; [reflexivity|reflexivity|].
+      destruct e1; reflexivity.
   - split.
     + intros s' ws' E. cbn [D.step] in E. inversion E; subst. exact W.
-    + left. cbn [D.step emb]. unfold gstep, enc at 1 2 3 4.
+    + cbn [D.step emb]. unfold gstep, enc at 1 2 3 4.
       cbn [DN.Counter_buf DN.Counter_cap DN.Counter_p DN.Counter_rng].
       rewrite (C19_reset_is_source s). reflexivity.
 Qed.
@@ -354,41 +472,16 @@ Qed.
 Theorem history_source cap fuel : forall ops s ws,
   DP.Inv T s -> words_ok ws ->
   grun_obs (enc cap s ws) ops
-  = (fst (D.run_obs T eqb single fuel cap s ws ops), emb cap (snd (D.run_obs T eqb single fuel cap s ws ops)))
-  \/ snd (grun_obs (enc cap s ws) ops) = Panic PBadOrder.
-Proof.
-  induction ops as [|o r IH]; intros s ws I W; [left; reflexivity|].
-  cbn [grun_obs D.run_obs].
-  destruct (step_is_source cap fuel s ws o I W) as [S1 [S2|[_ S2]]].
-  2:{ right. rewrite S2. reflexivity. }
-  rewrite S2. destruct (D.step T eqb single fuel cap s ws o) as [s' ws'|e] eqn:Es.
-  - cbn [emb bind].
-    assert (I' : DP.Inv T s') by (eapply (DP.step_Inv T eqb eqb_reflect); eassumption).
-    rewrite (gobserve_enc cap s' ws' I').
-    destruct (IH s' ws' I' (S1 _ _ eq_refl)) as [H|H].
-    + left. rewrite H. destruct (D.run_obs T eqb single fuel cap s' ws' r) as [obs fin].
-      cbn [fst snd enc DN.Counter_rng]. reflexivity.
-    + right. destruct (grun_obs (enc cap s' ws') r) as [obs fin]. exact H.
-  - left. destruct e; reflexivity.
-Qed.
-
-(* histories whose ranges all run in list order: no oracle, no proviso *)
-Definition plain (ops : list (D.op T)) : Prop := forall o, In o ops -> oracle_of o = None.
-
-Theorem history_source_plain cap fuel : forall ops s ws,
-  DP.Inv T s -> words_ok ws -> plain ops ->
-  grun_obs (enc cap s ws) ops
   = (fst (D.run_obs T eqb single fuel cap s ws ops), emb cap (snd (D.run_obs T eqb single fuel cap s ws ops))).
 Proof.
-  induction ops as [|o r IH]; intros s ws I W Pl; [reflexivity|].
+  induction ops as [|o r IH]; intros s ws I W; [reflexivity|].
   cbn [grun_obs D.run_obs].
-  destruct (step_is_source cap fuel s ws o I W) as [S1 [S2|[S3 _]]].
-  2:{ exfalso. apply S3. apply Pl. left. reflexivity. }
+  destruct (step_is_source cap fuel s ws o I W) as [S1 S2].
   rewrite S2. destruct (D.step T eqb single fuel cap s ws o) as [s' ws'|e] eqn:Es.
   - cbn [emb bind].
     assert (I' : DP.Inv T s') by (eapply (DP.step_Inv T eqb eqb_reflect); eassumption).
     rewrite (gobserve_enc cap s' ws' I').
-    rewrite (IH s' ws' I' (S1 _ _ eq_refl) (fun o0 H => Pl o0 (or_intror H))).
+    rewrite (IH s' ws' I' (S1 _ _ eq_refl)).
     destruct (D.run_obs T eqb single fuel cap s' ws' r) as [obs fin].
     cbn [fst snd enc DN.Counter_rng]. reflexivity.
   - destruct e; reflexivity.
@@ -409,12 +502,11 @@ Lemma history_final cap fuel ops s ws obs c :
   exists s' ws', D.run T eqb single fuel cap s ws ops = D.ROk s' ws' /\ c = enc cap s' ws'
                  /\ obs = fst (D.run_obs T eqb single fuel cap s ws ops).
 Proof.
-  intros I W E. destruct (history_source cap fuel ops s ws I W) as [H|H].
-  - rewrite H in E. inversion E as [[E1 E2]]. rewrite run_obs_run in E2.
-    destruct (D.run T eqb single fuel cap s ws ops) as [s' ws'|e].
-    + cbn [emb] in E2. inversion E2. exists s', ws'. repeat split; reflexivity.
-    + destruct e; discriminate.
-  - rewrite E in H. discriminate.
+  intros I W E. rewrite (history_source cap fuel ops s ws I W) in E.
+  inversion E as [[E1 E2]]. rewrite run_obs_run in E2.
+  destruct (D.run T eqb single fuel cap s ws ops) as [s' ws'|e].
+  - cbn [emb] in E2. inversion E2. exists s', ws'. repeat split; reflexivity.
+  - destruct e; discriminate.
 Qed.
 
 (* ------------------------------------------------------------------ from the generated constructor *)
@@ -429,24 +521,12 @@ Proof. intros E. rewrite newcounter_is_source, E. reflexivity. Qed.
 Theorem history_source_new size fuel ops :
   seed_err crand_Read = false -> words_ok ws0 ->
   exists c0, @DN.NewCounter T (list Z) crand_Read stream size = Ok c0 /\
-    (grun_obs c0 ops
-     = (fst (D.run_obs T eqb single fuel size (D.init T) ws0 ops),
-        emb size (snd (D.run_obs T eqb single fuel size (D.init T) ws0 ops)))
-     \/ snd (grun_obs c0 ops) = Panic PBadOrder).
-Proof.
-  intros E W. eexists. split; [apply newcounter_enc; exact E|].
-  apply history_source; [apply DP.Inv_init | exact W].
-Qed.
-
-Theorem history_source_new_plain size fuel ops :
-  seed_err crand_Read = false -> words_ok ws0 -> plain ops ->
-  exists c0, @DN.NewCounter T (list Z) crand_Read stream size = Ok c0 /\
     grun_obs c0 ops
     = (fst (D.run_obs T eqb single fuel size (D.init T) ws0 ops),
        emb size (snd (D.run_obs T eqb single fuel size (D.init T) ws0 ops))).
 Proof.
-  intros E W Pl. eexists. split; [apply newcounter_enc; exact E|].
-  apply history_source_plain; [apply DP.Inv_init | exact W | exact Pl].
+  intros E W. eexists. split; [apply newcounter_enc; exact E|].
+  apply history_source; [apply DP.Inv_init | exact W].
 Qed.
 
 (* ---- the model-level theorems read on the generated machine.  In each: the history is run from
@@ -519,3 +599,17 @@ Proof.
   exists DP.f8_words, DP.f8_ops. do 5 eexists.
   split; [reflexivity|]. split; [vm_compute; reflexivity|]. split; [vm_compute; reflexivity|]. split; reflexivity.
 Qed.
+
+(* A history through the generated functions, by computation (no tie is used): size 2, the stream
+   [MaxUint64; 0; 5; 7]; Add 1; Add 2 (buffer full: the pass draws MaxUint64, all tails, keeps both;
+   p halves); Add 3 (the coin draws 0 < p and passes; the pass draws 5 = 101b: keeps 3 and 1, drops
+   2; p halves again); Reset (empty, p back to MaxUint64); Add 4 (no word drawn). *)
+Lemma history_witness_source :
+  let ws := [D.maxu; 0; 5; 7] in
+  let ops := [D.OAdd 1 None; D.OAdd 2 None; D.OAdd 3 (Some [3]); D.OReset; D.OAdd 4 None] in
+  exists c0, @DN.NewCounter Z (list Z) (fun s => (s, 32, false)) (fun _ => ws) 2 = Ok c0 /\
+    grun_obs Z.eqb c0 ops =
+    ([(1, 1, 18446744073709551615, 0); (2, 4, 9223372036854775807, 1); (2, 8, 4611686018427387903, 2);
+      (0, 0, 18446744073709551615, 0); (1, 1, 18446744073709551615, 0)],
+     Ok (DN.mk_Counter (Some [(4, tt)]) 2 18446744073709551615 [7])).
+Proof. eexists. split; [reflexivity|]. vm_compute. reflexivity. Qed.
